@@ -654,6 +654,45 @@ package httpserver
 //@   ensures [strict_sni_bare] (!splitOK(old(r.Host)) && strictMismatch(old(r.Host))) ==> (chainCalls == old(chainCalls) && (result0 == 403 || result0 == 0))
 //@   ensures [no_site_404] (splitOK(old(r.Host)) && vh(splitHost(old(r.Host))) == nil) ==> chainCalls == old(chainCalls)
 
+//@ unit activate_https frames=on props=C15 nilchecks=on filter=`httpserver\.activateHTTPS$`
+//@ // the steps of automatic HTTPS happen on EVERY successful activation, whatever the mix of sites (none managed, all
+//@ // managed, some on demand): the qualifying sites are marked, the marked ones are switched to HTTPS, and then redirect
+//@ // sites are made from ALL the server's sites - makePlaintextRedirects itself picks every TLS-enabled one, managed or
+//@ // not (unit plaintext_redirects) - and its result is what the context keeps. In that order, each step once.
+//@ ghost marked int
+//@ ghost enabled int
+//@ ghost redirected int
+//@ ghost kept int
+//@ func markQualifiedForAutoHTTPS
+//@   requires forall(k, 0, len(configs), configs[k] != nil && configs[k].TLS != nil)
+//@   modifies ghost:marked, Config.Managed
+//@   ensures marked == old(marked) + 1
+//@ func enableAutoHTTPS
+//@   modifies ghost:enabled, Config.Enabled, Config.ProtocolMinVersion, Config.ProtocolMaxVersion, Config.Ciphers, Config.CurvePreferences, Config.PreferServerCipherSuites
+//@   ensures enabled == old(enabled) + 1
+//@ func makePlaintextRedirects
+//@   requires forall(k, 0, len(allConfigs), allConfigs[k] != nil && allConfigs[k].TLS != nil)
+//@   modifies ghost:redirected
+//@   ensures redirected == old(redirected) + 1
+//@ extern github.com/tmpim/casket.Started
+//@ extern github.com/tmpim/casket.IsUpgrade
+//@ extern fmt.Println
+//@ extern context.TODO
+//@ extern (*github.com/caddyserver/certmagic.Config).ObtainCertAsync
+//@ extern (*github.com/caddyserver/certmagic.Cache).RenewManagedCertificates
+//@ extern (*sync.RWMutex).RLock
+//@ extern (*sync.RWMutex).RUnlock
+//@ define sitesOK(x *httpContext) bool = x.instance != nil && forall(k, 0, len(x.siteConfigs), x.siteConfigs[k] != nil && x.siteConfigs[k].TLS != nil && x.siteConfigs[k].TLS.Manager != nil)
+//@ func activateHTTPS
+//@   requires cctx != nil && sitesOK(cctx.(*httpContext)) && marked == 0 && enabled == 0 && redirected == 0 && kept == 0
+//@   modifies ghost:marked, ghost:enabled, ghost:redirected, ghost:kept, httpContext.siteConfigs, Config.Managed, Config.Enabled, Config.ProtocolMinVersion, Config.ProtocolMaxVersion, Config.Ciphers, Config.CurvePreferences, Config.PreferServerCipherSuites
+//@   at call markQualifiedForAutoHTTPS before [all_sites_screened] arg0 == cctx.(*httpContext).siteConfigs
+//@   at call enableAutoHTTPS before [after_screening_all_sites_with_certificates_loaded] marked == 1 && arg0 == cctx.(*httpContext).siteConfigs && arg1
+//@   at call makePlaintextRedirects before [after_enabling_from_all_sites] enabled == 1 && arg0 == cctx.(*httpContext).siteConfigs
+//@   at call fieldstore:httpContext.siteConfigs before [only_the_redirect_result_is_kept] redirected == 1 && arg0 == cctx.(*httpContext)
+//@   at call fieldstore:httpContext.siteConfigs do kept = kept + 1
+//@   ensures [every_successful_activation_screens_enables_and_makes_redirects] result == nil ==> (marked == 1 && enabled == 1 && redirected == 1 && kept == 1)
+
 //@ unit auto_https frames=on props=C15 filter=`httpserver\.(enableAutoHTTPS|markQualifiedForAutoHTTPS)$`
 //@ extern github.com/caddyserver/certmagic.SubjectQualifiesForPublicCert
 //@   pure
